@@ -74,8 +74,10 @@ class C14(core.Check):
                'TokenisedStream.skip_to; tied by correspondence on real Sessions (bytecode, line_numbers, '
                'old_to_new, Undefined-line reports, traps, errors); token table regenerated; that every '
                'line-number reference is tokenised as a 0E token is C17 (tokeniser)']
-    PARTIAL = ('behaviour preservation (running the renumbered program behaves the same) is stated '
-               '(C14_simulation_statement) but not proved; it is tested by the oracle on programs that terminate')
+    PARTIAL = ('behaviour preservation (running the renumbered program behaves the same) is only stated '
+               '(RenumSpec.C14_simulation_statement), neither proved nor tested; the old line number printed in an '
+               'Undefined-line report (get_line_number) is tied by correspondence and the oracle only; on a rejected '
+               'RENUM the side effect on last_stored is not modelled')
     RULE = ('generated programs with every reference kind, missing targets, ON ERROR GOTO 0, references inside '
             'strings/REM/DATA, active error and event traps before/after the range, random RENUM new,old,step '
             '(including rejected ones); compared with the model on bytecode, line_numbers, old_to_new, reports, '
